@@ -7,7 +7,7 @@ package parser
 func VerifUsable(R, maxLen, startMode int) {
 	pool := []string{"A", "B", "S", "N", "T", "U"}
 	startName := "S"
-	if startMode == 1 {
+	if startMode == 1 || startMode == 3 {
 		// no %start directive: the start symbol is the one named "start"
 		startName = "start"
 		pool[2] = "start"
@@ -34,7 +34,11 @@ func VerifUsable(R, maxLen, startMode int) {
 		n := verifConc(verifIntIn("len", 0, maxLen))
 		rd := RuleDef{LeftPart: lhsNames[li], LineNo: r + 1}
 		// %prec: none, a declared token without a level, a declared token with a level, an undeclared name
-		switch verifConc(verifPick("prec", 4)) {
+		precChoices := 4
+		if startMode >= 2 {
+			precChoices = 1 // larger shapes are explored without %prec annotations
+		}
+		switch verifConc(verifPick("prec", precChoices)) {
 		case 1:
 			rd.PrecSym = "A"
 		case 2:
